@@ -158,7 +158,8 @@ def _arrayindex_build(n, v, kids, extra):
 def _arrayindex_gen(g):
     r = g.rng
     m = r.randint(1, 6)
-    items = [g.lit() if r.random() < 0.8 else g.finite_seq(minlen=1, maxlen=3) for _ in range(m)]
+    # with finite pattern items and a cycling index the lookup is a selector, not a finite pattern: literal items when finiteness matters
+    items = [g.lit() if (g.finite_only or r.random() < 0.8) else g.finite_seq(minlen=1, maxlen=3) for _ in range(m)]
     idx = g.param(lambda: r.choice([None] + list(range(-m - 1, m + 2))), p_pattern=0.7)
     return node("arrayIndex", [], [], [idx] + items)
 
